@@ -1258,6 +1258,17 @@ def gate(kind, ready):
         s.yield_op(vcore.Op(kind, None, ready, lambda: None))
 
 
+def deliver_now(link, pk):
+    """put a downlink packet into the link's in_queue at once (the virtual Queue.put would be a yield point of
+    the sending thread: the design spec has the acknowledgement in the queue as soon as the device has acted)"""
+    from cflib.crtp.crtpstack import CRTPPacket
+    if link is None or link.closed:
+        return
+    cp = CRTPPacket(pk.header & 0xF3, bytes(pk.data))
+    link.in_queue.queue.append(cp)
+    link.in_queue.unfinished_tasks += 1
+
+
 class BDevice(sd.Device):
     """log control messages (port 5 channel 1) and parameter writes (port 2 channel 2) are executed when they
     arrive and answered at once into the host's in_queue; both are observable (parking) events"""
@@ -1269,24 +1280,22 @@ class BDevice(sd.Device):
 
     def uplink(self, link, pk):
         if self.manual and pk.port == sv.PORT_LOG and pk.channel == 1:
-            marker('obs.ctl')
             if link.closed or link is not self.link:
                 return
             self.up_n += 1
             reps = self.services[sv.PORT_LOG].handle(pk)
             self.x.on_ctl(pk, reps)
             for r in reps:
-                self._deliver(link, r, 'deliver')
+                deliver_now(link, r)
             return
         if self.manual and pk.port == sv.PORT_PARAM and pk.channel == 2:
-            marker('obs.pset')
             if link.closed or link is not self.link:
                 return
             self.up_n += 1
             reps = self.services[sv.PORT_PARAM].handle(pk)
             self.x.on_pset(pk)
             for r in reps:
-                self._deliver(link, r, 'deliver')
+                deliver_now(link, r)
             return
         return super().uplink(link, pk)
 
@@ -1321,7 +1330,7 @@ class ExecB(Stepper):
     """One scenario of family B.  sc: mode 'ranger'|'estimator', rate, haskalman, script [op], data [vector],
     driver, down"""
     STOPS = ('obs.begin', 'obs.end', 'obs.ctl', 'obs.pset', 'obs.ack', 'obs.data', 'obs.prx', 'obs.wake', 'obs.take',
-             'obs.down')
+             'obs.down', 'obs.disc')
 
     def __init__(self, sc, s, mutant=None):
         import cflib.crazyflie as cfm
@@ -1373,6 +1382,18 @@ class ExecB(Stepper):
             self.undo.append(mutant(self))
         dev.manual = True
         self.t0 = self.now_ms()
+
+        # a thread parks just before it hands a log control message / parameter write to Crazyflie.send_packet
+        # (outside _send_lock, so that a parked thread never keeps other senders out)
+        orig_send = cf.send_packet
+
+        def send_packet(pk, *a, **k):
+            if pk.port == sv.PORT_LOG and pk.channel == 1 and tuple(pk.data)[:1] != (5,):
+                marker('obs.ctl')
+            elif pk.port == sv.PORT_PARAM and pk.channel == 2:
+                marker('obs.pset')
+            return orig_send(pk, *a, **k)
+        cf.send_packet = send_packet
 
         # ---- observation points
         def on_rx(pk):
@@ -1435,6 +1456,12 @@ class ExecB(Stepper):
 
         class ObsQueue(qb):
             _x02_base = qb
+
+            def put(self, item, block=True, timeout=None):
+                if isinstance(item, str):          # SyncLogger.DISCONNECT_EVENT
+                    marker('obs.disc')
+                    me.ev.append(EB('disc'))
+                return qb.put(self, item, block, timeout)
 
             def get(self, block=True, timeout=None):
                 r = qb.get(self, block, timeout)
@@ -1520,7 +1547,7 @@ class ExecB(Stepper):
         self.sent_types[bid] = types
         self.ndata += 1
         self.ev.append(EB('emit', id=bid, vals=[int(v) for v in vec]))
-        self.dev.emit(self.logsvc.data_packet(bid, self.ndata & 0xFFFFFF, payload))
+        deliver_now(self.dev.link, self.logsvc.data_packet(bid, self.ndata & 0xFFFFFF, payload))
         return True
 
     def can_emit(self):
@@ -1721,15 +1748,19 @@ class ExecB(Stepper):
         if name in ('DispP', 'DispAck', 'DispData', 'SendStart'):
             r = self.act(self.drec, {'DispP': 'obs.prx', 'DispAck': 'obs.ack', 'DispData': 'obs.data', 'SendStart': 'obs.ctl'}[name])
             return '' if r == 'ok' else r
+        if name == 'SyncDisc':
+            r = self.act(self.downthr, 'obs.disc')
+            return '' if r == 'ok' else r
         if name == 'EmitData':
             return '' if self.emit(args[0]) else 'no started block'
         if name == 'LinkDrop':
             rec = self.linkdown('error')
             r = self.act(rec, 'obs.down')
             # operations parked just before a transmission are void now: let those threads run on
-            for t in (self.drec, self.urec, self.user):
-                if t is not None and not t.finished:
-                    self.run_on(t)
+            for _ in range(3):
+                for t in (self.drec, self.urec, self.user):
+                    if t is not None and not t.finished:
+                        self.run_on(t)
             return '' if r == 'ok' else r
         return 'unknown action ' + name
 
